@@ -67,10 +67,20 @@ static void check_zero_forms(const char *text, const struct cat_command *c)
         }
 }
 static const struct cat_command *cur_auto; static int cur_fsm;
+/* an event raised in the middle of a line (at a fixed input offset, so that both runs of a twin stay aligned): the command machine is then busy with a request of its own kind */
+static struct { long off; int ci, type; } mid[8]; static int nmid;
+static void on_read(size_t off, uint8_t ch) { (void)ch; for (int k = 0; k < nmid; k++) if (mid[k].off == (long)off) { (void)cat_trigger_unsolicited_event(W.at, W.cmd[mid[k].ci], (cat_cmd_type)mid[k].type); CNT("events_raised_in_the_middle_of_a_line"); } }
 static void on_unit(bool isA, bool raw, const char *text, size_t len, bool a, bool b)
 {
         (void)len; (void)a; (void)b;
         if (raw) return;
+        if (!isA) for (size_t i = 0; i < W.ncmds; i++) {      /* a READ event of a command that offers nothing readable and has no read handler prints nothing (a TEST event prints "<name>=<..." or the bare prefix) */
+                const struct cat_command *c = W.cmd[i]; size_t nl = strlen(c->name);
+                if (c->read != NULL || ref_readable(c) || strncmp(text, c->name, nl) != 0 || text[nl] != '=') continue;
+                bool unique = true; for (size_t k = 0; k < W.ncmds; k++) if (k != i && strncmp(W.cmd[k]->name, c->name, nl < strlen(W.cmd[k]->name) ? nl : strlen(W.cmd[k]->name)) == 0) unique = false;
+                char nx = text[nl + 1];
+                if (unique && nx != '<' && nx != 0 && nx != '\n' && nx != '\r') { viol("C08", "read-not-refused", "an unsolicited READ of \"%s\" (nothing readable, no read handler) printed \"%.40s\"", c->name, text); return; }
+        }
         for (size_t i = 0; i < W.ncmds; i++) {
                 const struct cat_command *c = W.cmd[i];
                 if (c->read != NULL || !c->var_num) continue;
@@ -91,7 +101,7 @@ static bool run_once(const uint8_t *vars)
         w_reinit(0);
         INPOS = 0; out_reset(); units_reset(); trace_h = 99;
         pr_seed(&H, CUR_SEED + 8, (uint64_t)CUR_CASE);
-        POLICY = policy; VPOLICY = vpolicy; ON_UNIT = on_unit;
+        POLICY = policy; VPOLICY = vpolicy; ON_UNIT = on_unit; ON_READ = on_read;
         size_t full = INLEN; bool ok = true;
         for (int s = 0; s < nseg && ok; s++) {
                 for (int t = 0; t < seg[s].ntrig; t++) cat_trigger_unsolicited_event(W.at, W.cmd[seg[s].tci[t]], (cat_cmd_type)seg[s].ttype[t]);
@@ -160,6 +170,8 @@ void chk_run_case(uint64_t seed, long c, bool is_sweep)
                 seg[s].ntrig = (int)rn(QCAP + 1 > 4 ? 4 : QCAP + 1);
                 for (int t = 0; t < seg[s].ntrig; t++) { seg[s].tci[t] = (int)rn(W.ncmds); seg[s].ttype[t] = chance(60) ? CAT_CMD_TYPE_READ : CAT_CMD_TYPE_TEST; }
         }
+        nmid = 0;
+        if (QCAP >= 1 && chance(40)) for (unsigned k = 0, n = 1 + rn(3); k < n && INLEN > 4; k++) { mid[nmid].off = (long)rn((unsigned)INLEN); mid[nmid].ci = (int)rn(W.ncmds); mid[nmid].type = chance(70) ? CAT_CMD_TYPE_READ : CAT_CMD_TYPE_TEST; nmid++; }
         sch_eager(&RS); sch_eager(&WS);
         snprintf(note, sizeof note, "run 1 (original write-only contents)");
         if (!run_once(v1)) { inconclusive("no quiescence (C15's subject)"); return; }
@@ -174,6 +186,7 @@ void chk_run_case(uint64_t seed, long c, bool is_sweep)
                 viol("C08", "write-only-disclosed", "output depends on the contents of write-only variables: the two runs differ at output offset %zu", d);
         } else if (trace_h != trace1) viol("C08", "write-only-disclosed-to-handler", "handler-visible texts / arguments depend on the contents of write-only variables");
         if (sample_wanted() && has_wo) { char b[300]; fmt_bytes(b, sizeof b, INB, INLEN > 90 ? 90 : INLEN); sample_printf("%zu commands, %zu variable bytes, input \"%s\": %zu output bytes identical in both runs although write-only contents differ", W.ncmds, nvb, b, out1n); }
+        nmid = 0;      /* no more events raised by offsets: the single lines below have offsets of their own */
         /* (c) gating, on the quiescent parser of run 2 */
         for (size_t i = 0; i < W.ncmds && !case_failed(); i++) {
                 const struct cat_command *cm = W.cmd[i];
